@@ -48,6 +48,10 @@ def _triple(rng):
         t = [math.exp(rng.uniform(math.log(0.002), math.log(0.05))) for _ in range(3)]
         r = sorted(t)
         if r[1] / r[0] > 1.25 and r[2] / r[1] > 1.25:
+            if rng.uniform(0.0, 1.0) < 0.3:
+                # one leg short (the middle coupling within 0.1-4% of an end point): a closed form that switches
+                # to an approximation on short paths no longer composes with a long leg
+                t[1] = t[rng.choice([0, 2])] * math.exp(rng.choice([-1, 1]) * rng.uniform(1e-3, 0.04))
             return t
 
 
